@@ -6,11 +6,14 @@ Translates, from the Python AST of the current source, into Gallina over coq/rst
   _rrulestr._handle_int, _handle_int_list, _handle_FREQ, _handle_WKST, _handle_UNTIL,
   _handle_BYWEEKDAY, the getattr dispatch table (from the class's `_handle_*` attribute names and
   aliases), _parse_rfc_rrule, _parse_rfc (class RfcFn; the unfold while-loop and the TZID regex
-  statement are recognised verbatim and mapped to unfold_lines / tzid_findall), the tables
-  _freq_map / _weekday_map / FREQNAMES, and rrule.__str__ (class StrFn);
-  _parse_date_value and _parse_date are hand-modelled and PINNED: a hash of their normalised AST is
-  compared with the pinned value below, any change aborts the translator.
-coq/rstr/RstrGenThm.v proves gen_* = hand model for all inputs; props/C13.v states C13_gen_*.
+  statement are recognised verbatim and mapped to unfold_lines / tzid_findall), _parse_date,
+  _parse_date_value (class PdvFn; the tzids None / callable / mapping block is recognised verbatim
+  and mapped to the environment's zone lookup), the tables _freq_map / _weekday_map / FREQNAMES, and
+  rrule.__str__ (class StrFn).  No method of _rrulestr is left hand-modelled (PINS is empty; the
+  pin mechanism stays for future use); rrule.__init__ (the model's `ctor`) is hand-modelled and
+  not translated.
+coq/rstr/RstrGenThm.v and RstrGenThm2.v prove gen_* = hand model for all inputs; props/C13.v states
+C13_gen_*.
 
 ACCEPTED SUBSET (anything else raises TranslateError -> exit 1 -> common.regenerate() poisons
 coq/gen/RstrGen.v -> the C13_gen_* obligations stop checking):
@@ -41,7 +44,11 @@ CALL TABLE (trusted meaning of library calls): int -> py_int; str.split(c) -> sp
  forms only); weekdays[i](n) -> g_weekday (checked: `weekdays = tuple(weekday(x) for x in range(7))`
  and rrule.weekday.__init__ raises ValueError for n == 0); rrule(...) -> ctor (hand model);
  strftime('%m%dT%H%M%S') / '{0:04d}'.format(year) -> d2 / d4 fields; str(int) -> str_of_int;
- '{n:+d}' -> fmt_plus; repr(weekday)[0:2] and repr(weekday) with n None -> wd_name.
+ '{n:+d}' -> fmt_plus; repr(weekday)[0:2] and repr(weekday) with n None -> wd_name;
+ in _parse_date_value: rule_tzids[k] -> tzid_lookup (KeyError = None); parm.split('TZID=')[-1] ->
+ split_last_tzid; tzlookup(name) (tz.gettz / callable tzids / tzids.get) -> tz_get (o_tzids o), the
+ zone table of the test environment, 0 = None; d.tzinfo is None -> dtz d = 0; d.replace(tzinfo=z) ->
+ dt_with_tz; str.startswith(c) -> startswith; `p in {consts}` -> leqb disjunction.
 """
 import ast
 import hashlib
@@ -54,10 +61,7 @@ SRC = os.path.join(REPO, "src", "dateutil", "rrule.py")
 OUT = os.environ.get("GEN_RSTR_OUT") or os.path.join(VERIF, "coq", "gen", "RstrGen.v")
 
 # pinned AST hashes of the hand-modelled remainder (see pin_check)
-PINS = {
-    "_parse_date_value": "3f078aabd2c63656",
-    "_parse_date": "f5fb7346dd6c4795",
-}
+PINS = {}
 
 
 class TranslateError(Exception):
@@ -1128,7 +1132,7 @@ class RfcFn(Fn):
                 if ty != "str":
                     fail("_parse_date argument", e)
                 v = self.fresh()
-                return pre + [(v, "g_parse %s %s" % (env["ignoretz"][0], t))], v, "dt"
+                return pre + [(v, "gen_parse_date %s %s" % (env["ignoretz"][0], t))], v, "dt"
             if m == "_parse_date_value" and not kws and [getattr(a, "id", None) for a in e.args[2:]] == \
                     ["TZID_NAMES", "ignoretz", "tzids", "tzinfos"] and env.get("TZID_NAMES", (0, 0))[1] == "names":
                 p1, t1, ty1 = self.ex(e.args[0], env)
@@ -1136,7 +1140,7 @@ class RfcFn(Fn):
                 if (ty1, ty2) != ("str", "liststr"):
                     fail("_parse_date_value arguments", e)
                 v = self.fresh()
-                return p1 + p2 + [(v, "g_of_res (parse_date_value o %s %s %s)" % (env["TZID_NAMES"][0], t1, t2))], v, "listdt"
+                return p1 + p2 + [(v, "gen_parse_date_value o %s %s %s" % (env["TZID_NAMES"][0], t1, t2))], v, "listdt"
             fail("method call outside the call table", e)
         if isinstance(e, ast.Subscript) and isinstance(e.value, ast.Name) and e.value.id in env \
                 and env[e.value.id][1] in ("liststr", "listdt"):
@@ -1264,7 +1268,7 @@ class RfcFn(Fn):
             if isinstance(v, ast.List) and not v.elts:
                 env2 = dict(env)
                 env2[n] = ("[]", {"rrulevals": "liststr", "rdatevals": "liststr", "exrulevals": "liststr",
-                                  "exdatevals": "listdt"}.get(n, "emptylist"))
+                                  "exdatevals": "listdt", "datevals": "listdt"}.get(n, "emptylist"))
                 return cont(env2)
             if isinstance(v, ast.Call) and isinstance(v.func, ast.Name) and v.func.id == "rruleset" and not v.args \
                     and [(kk.arg, getattr(kk.value, "id", None)) for kk in v.keywords] == [("cache", "cache")] and n == "rset":
@@ -1385,8 +1389,14 @@ class RfcFn(Fn):
             after.append(v)
             env2[n] = (v, env[n][1])
         st, st2 = self.fresh("st"), self.fresh("st")
-        return self.wrap(pre, "gbind (gfoldM (fun %s %s => let '%s := %s in %s) %s %s) (fun %s => let '%s := %s in %s)" % (
-            st, x, tup(svars), st, body, t, tup([env[n][0] for n in carried]), st2, tup(after), st2, self.comp(rest, env2, k)))
+        coq_ty = {"bool": "bool", "tz": "Z", "liststr": "list str", "listdt": "list dt", "listrule": "list rule",
+                  "optdt": "option dt", "str": "str"}
+        for n in carried:
+            if env[n][1] not in coq_ty:
+                fail("loop-carried variable %s of type %s" % (n, env[n][1]), s)
+        sty = " * ".join(coq_ty[env[n][1]] for n in carried)
+        return self.wrap(pre, "gbind (gfoldM (fun (%s : %s) %s => let '%s := %s in %s) %s %s) (fun %s => let '%s := %s in %s)" % (
+            st, sty, x, tup(svars), st, body, t, tup([env[n][0] for n in carried]), st2, tup(after), st2, self.comp(rest, env2, k)))
 
 
 def translate_rfc(cls, tables):
@@ -1404,6 +1414,202 @@ def translate_rfc(cls, tables):
            "tzids": ("tt", "tzids"), "tzinfos": ("tt", "unit")}
     fn = RfcFn(tables)
     return fn.comp(list(f.body), env, lambda e2: fail("_parse_rfc falls off its end", f))
+
+
+# ---------------------------------------------------------------------------------- _parse_date / _parse_date_value
+
+TZLOOKUP_IDIOM = """
+if tzids is None:
+    from . import tz
+    tzlookup = tz.gettz
+elif callable(tzids):
+    tzlookup = tzids
+else:
+    tzlookup = getattr(tzids, 'get', None)
+    if tzlookup is None:
+        msg = ('tzids must be a callable, mapping, or None, '
+               'not %s' % tzids)
+        raise ValueError(msg)
+"""
+PARSE_DATE_BODY = """
+try:
+    return parser.parse(datestr, ignoretz=ignoretz, tzinfos=tzinfos)
+except OverflowError:
+    raise ValueError("invalid date: " + datestr)
+"""
+
+
+def translate_parse_date(cls):
+    """_parse_date: `try: return parser.parse(datestr, ignoretz=ignoretz, tzinfos=tzinfos)
+    except <classes>: raise <class>(..)` -> gcatchs (g_parse ig datestr) [..]"""
+    funcs = {f.name: f for f in cls.body if isinstance(f, ast.FunctionDef)}
+    f = funcs.get("_parse_date")
+    if f is None or [x.arg for x in f.args.args] != ["self", "datestr", "ignoretz", "tzinfos"] or f.args.defaults \
+            or f.args.vararg or f.args.kwarg or f.args.kwonlyargs:
+        fail("_parse_date signature", f)
+    body = [st for st in f.body if not (isinstance(st, ast.Expr) and is_const_str(st.value))]
+    if len(body) != 1 or not isinstance(body[0], ast.Try):
+        fail("_parse_date body is not one try statement", f)
+    t = body[0]
+    if t.orelse or t.finalbody or len(t.body) != 1 or not isinstance(t.body[0], ast.Return) \
+            or ast.dump(t.body[0].value) != ast.dump(ast.parse(
+                "parser.parse(datestr, ignoretz=ignoretz, tzinfos=tzinfos)", mode="eval").body):
+        fail("_parse_date try body", t)
+    fn = Fn({}, "none")
+    hs = []
+    for h in t.handlers:
+        if h.name is not None or len(h.body) != 1 or not isinstance(h.body[0], ast.Raise):
+            fail("except clause", h)
+        tys = h.type.elts if isinstance(h.type, ast.Tuple) else [h.type]
+        cl = []
+        for ty in tys:
+            if not (isinstance(ty, ast.Name) and ty.id in EXC):
+                fail("exception class", h)
+            cl.append(EXC[ty.id])
+        hs.append("([%s], %s)" % ("; ".join(cl), fn.exc_of(h.body[0])))
+    return "gcatchs (g_parse ig datestr) [%s]" % "; ".join(hs)
+
+
+class PdvFn(RfcFn):
+    """_parse_date_value -> gen_parse_date_value (o : opts) (rule_tzids : list str) (date_value : str)
+    (parms : list str) : gres (list dt).
+    Additional accepted forms (beyond RfcFn): `x = True / False`; `x = None` for a name later bound to
+    `tzlookup(..)` (a zone tag, 0 = None); `try: v = rule_tzids[parm.split('TZID=')[-1]] except KeyError:
+    continue` (-> tzid_lookup / split_last_tzid); the TZLOOKUP idiom (exact AST: tzids None / callable /
+    mapping -> the environment's zone lookup tz_get (o_tzids o)); `x = tzlookup(v)`; `p not in {<str
+    consts>}`; `X is None` / `is not None` on a zone tag and on `d.tzinfo`; `d.replace(tzinfo=X)`
+    (-> dt_with_tz); an assignment to a name that is only read inside `raise` arguments, with a
+    right-hand side built from string constants, string variables and `+` (a message: no-op);
+    `return datevals`."""
+
+    def __init__(self, tables, f):
+        RfcFn.__init__(self, tables)
+        in_raise = {id(n) for r in ast.walk(f) if isinstance(r, ast.Raise) for n in ast.walk(r)
+                    if isinstance(n, ast.Name)}
+        loads = {}
+        for n in ast.walk(f):
+            if isinstance(n, ast.Name) and isinstance(n.ctx, ast.Load):
+                loads.setdefault(n.id, []).append(id(n) in in_raise)
+        self.msg_names = {n for n, l in loads.items() if all(l)}
+        self.tz_vars = {st.targets[0].id for st in ast.walk(f)
+                        if isinstance(st, ast.Assign) and len(st.targets) == 1 and isinstance(st.targets[0], ast.Name)
+                        and isinstance(st.value, ast.Call) and isinstance(st.value.func, ast.Name)
+                        and st.value.func.id == "tzlookup"}
+
+    def pure_msg(self, e, env):
+        if is_const_str(e):
+            return True
+        if isinstance(e, ast.Name):
+            return env.get(e.id, (0, 0))[1] == "str"
+        if isinstance(e, ast.BinOp) and isinstance(e.op, ast.Add):
+            return self.pure_msg(e.left, env) and self.pure_msg(e.right, env)
+        return False
+
+    def bexp(self, c, env):
+        if isinstance(c, ast.Compare) and len(c.ops) == 1:
+            op, l, r = c.ops[0], c.left, c.comparators[0]
+            if isinstance(op, (ast.Is, ast.IsNot)) and isinstance(r, ast.Constant) and r.value is None:
+                b = None
+                if isinstance(l, ast.Name) and env.get(l.id, (0, 0))[1] == "tz":
+                    b = "(%s =? 0)" % env[l.id][0]
+                elif isinstance(l, ast.Attribute) and l.attr == "tzinfo" and isinstance(l.value, ast.Name) \
+                        and env.get(l.value.id, (0, 0))[1] == "dt":
+                    b = "(dtz %s =? 0)" % env[l.value.id][0]
+                if b is not None:
+                    return b if isinstance(op, ast.Is) else "negb %s" % b
+            if isinstance(op, (ast.In, ast.NotIn)) and isinstance(r, ast.Set) and r.elts \
+                    and all(is_const_str(x) for x in r.elts) and isinstance(l, ast.Name) \
+                    and env.get(l.id, (0, 0))[1] == "str":
+                b = "(" + " || ".join("leqb %s %s" % (env[l.id][0], lit(x.value)) for x in r.elts) + ")"
+                return b if isinstance(op, ast.In) else "negb %s" % b
+        return RfcFn.bexp(self, c, env)
+
+    def ex(self, e, env):
+        if isinstance(e, ast.Constant) and isinstance(e.value, bool):
+            return [], "true" if e.value else "false", "bool"
+        # parm.split('TZID=')[-1]
+        if (isinstance(e, ast.Subscript) and ast.dump(e.slice) == ast.dump(ast.parse("-1", mode="eval").body)
+                and isinstance(e.value, ast.Call) and isinstance(e.value.func, ast.Attribute)
+                and e.value.func.attr == "split" and not e.value.keywords and len(e.value.args) == 1
+                and is_const_str(e.value.args[0]) and e.value.args[0].value == "TZID="):
+            pre, t, ty = self.ex(e.value.func.value, env)
+            if ty != "str":
+                fail("split() receiver", e)
+            return pre, "(split_last_tzid %s)" % t, "str"
+        if isinstance(e, ast.Call) and isinstance(e.func, ast.Name) and env.get(e.func.id, (0, 0))[1] == "tzlookup" \
+                and len(e.args) == 1 and not e.keywords:
+            pre, t, ty = self.ex(e.args[0], env)
+            if ty != "str":
+                fail("tzlookup argument", e)
+            return pre, "(%s %s)" % (env[e.func.id][0], t), "tz"
+        if (isinstance(e, ast.Call) and isinstance(e.func, ast.Attribute) and e.func.attr == "replace" and not e.args
+                and isinstance(e.func.value, ast.Name) and env.get(e.func.value.id, (0, 0))[1] == "dt"
+                and len(e.keywords) == 1 and e.keywords[0].arg == "tzinfo" and isinstance(e.keywords[0].value, ast.Name)
+                and env.get(e.keywords[0].value.id, (0, 0))[1] == "tz"):
+            return [], "(dt_with_tz %s %s)" % (env[e.func.value.id][0], env[e.keywords[0].value.id][0]), "dt"
+        return RfcFn.ex(self, e, env)
+
+    def comp(self, stmts, env, k):
+        if not stmts:
+            return k(env)
+        s, rest = stmts[0], stmts[1:]
+
+        def cont(e2):
+            return self.comp(rest, e2, k)
+        if same_ast([s], "if not parser:\n    from dateutil import parser"):
+            return cont(env)
+        if same_ast([s], TZLOOKUP_IDIOM) and env.get("tzids", (0, 0))[1] == "tzids":
+            env2 = dict(env)
+            env2["tzlookup"] = ("tz_get (o_tzids o)", "tzlookup")
+            return cont(env2)
+        if isinstance(s, ast.Assign) and len(s.targets) == 1 and isinstance(s.targets[0], ast.Name):
+            n, v = s.targets[0].id, s.value
+            if n in self.msg_names and n not in env:
+                if not self.pure_msg(v, env):
+                    fail("message assignment with an effectful right-hand side", s)
+                return cont(env)
+            if isinstance(v, ast.Constant) and v.value is None:
+                if n not in self.tz_vars:
+                    fail("`%s = None` for a name that is not a zone" % n, s)
+                env2 = dict(env)
+                env2[n] = ("0", "tz")
+                return cont(env2)
+        # try: v = rule_tzids[K] except KeyError: continue
+        if isinstance(s, ast.Try):
+            ok = (not s.orelse and not s.finalbody and len(s.body) == 1 and len(s.handlers) == 1
+                  and isinstance(s.body[0], ast.Assign) and len(s.body[0].targets) == 1
+                  and isinstance(s.body[0].targets[0], ast.Name) and isinstance(s.body[0].value, ast.Subscript)
+                  and isinstance(s.body[0].value.value, ast.Name)
+                  and env.get(s.body[0].value.value.id, (0, 0))[1] == "names"
+                  and s.handlers[0].name is None and isinstance(s.handlers[0].type, ast.Name)
+                  and s.handlers[0].type.id == "KeyError" and len(s.handlers[0].body) == 1
+                  and isinstance(s.handlers[0].body[0], ast.Continue))
+            if not ok:
+                fail("try statement (_parse_date_value)", s)
+            pre, t, ty = self.ex(s.body[0].value.slice, env)
+            if pre or ty != "str":
+                fail("dictionary key", s)
+            v = self.fresh(s.body[0].targets[0].id)
+            env2 = dict(env)
+            env2[s.body[0].targets[0].id] = (v, "str")
+            return "(match tzid_lookup %s %s with Some %s => %s | None => %s end)" % (
+                env[s.body[0].value.value.id][0], t, v, cont(env2), k(env))
+        if isinstance(s, ast.Return) and isinstance(s.value, ast.Name) and env.get(s.value.id, (0, 0))[1] == "listdt":
+            return "GOk %s" % env[s.value.id][0]
+        return RfcFn.comp(self, stmts, env, k)
+
+
+def translate_pdv(cls, tables):
+    funcs = {f.name: f for f in cls.body if isinstance(f, ast.FunctionDef)}
+    f = funcs.get("_parse_date_value")
+    if f is None or [x.arg for x in f.args.args] != ["self", "date_value", "parms", "rule_tzids", "ignoretz", "tzids",
+                                                     "tzinfos"] \
+            or f.args.defaults or f.args.vararg or f.args.kwarg or f.args.kwonlyargs:
+        fail("_parse_date_value signature", f)
+    env = {"date_value": ("date_value", "str"), "parms": ("parms", "liststr"), "rule_tzids": ("rule_tzids", "names"),
+           "ignoretz": ("(o_ignoretz o)", "bool"), "tzids": ("tt", "tzids"), "tzinfos": ("tt", "unit")}
+    fn = PdvFn(tables, f)
+    return fn.comp(list(f.body), env, lambda e2: fail("_parse_date_value falls off its end", f))
 
 # ---------------------------------------------------------------------------------- module level
 
@@ -1489,7 +1695,7 @@ def translate(src):
               "weekdays_ok": weekdays_ok(mod)}
     out = []
     out.append("(* GENERATED by harness/gen_rstr.py from src/dateutil/rrule.py -- do not edit *)")
-    out.append("(* hand-modelled, AST-pinned methods: %s *)" % ", ".join(pins))
+    out.append("(* hand-modelled, AST-pinned methods: %s *)" % (", ".join(pins) or "none"))
     out.append("From Coq Require Import ZArith List Bool.")
     out.append("From V Require Import base.Cal rstr.RstrPrim rstr.RstrModel rstr.RstrGenBase.")
     out.append("Import ListNotations.\nOpen Scope Z_scope.\n")
@@ -1549,6 +1755,9 @@ def translate(src):
     out.append("(* self._parse_rfc_rrule(line, dtstart=.., ignoretz=.., tzinfos=..): the dictionary, then rrule(...) = ctor *)")
     out.append("Definition gen_rule (ev : env) (ig : bool) (line : str) (st : option dt) : gres rule :=\n"
                "  gbind (gen_parse_rfc_rrule ig line) (fun kw => g_of_res (ctor ev st kw)).\n")
+    out.append("Definition gen_parse_date (ig : bool) (datestr : str) : gres dt :=\n  %s.\n" % translate_parse_date(cls))
+    out.append("Definition gen_parse_date_value (o : opts) (rule_tzids : list str) (date_value : str) "
+               "(parms : list str) : gres (list dt) :=\n  %s.\n" % translate_pdv(cls, tables))
     out.append("Definition gen_parse_rfc (ev : env) (o : opts) (s : str) : gres result :=\n  %s.\n" % translate_rfc(cls, tables))
     # FREQNAMES and rrule.__str__
     fr = None
